@@ -246,6 +246,70 @@ def run_ops(case) -> CaseResult:
     return res
 
 
+# ------------------------------------------------------------------ (d) the fixed-constraint residual ops
+
+
+@st.composite
+def residual_cases(draw, tier):
+    shape = draw(st.lists(st.integers(1, 4), min_size=1, max_size=3))
+    tau = draw(st.sampled_from([0.25, 0.5, 1.0, 2.0, 0.01, 4.0, 1, 2]) | st.floats(0.01, 8.0).map(lambda v: round(v, 4)))
+    return dict(shape=shape, tau=tau, branch=draw(st.sampled_from(["tanh", "linear", "mulc", "pool", "square", "sin+param"])),
+                via=draw(st.sampled_from(["split-add", "split-add-kw", "apply"])), seed=draw(st.integers(0, 10**6)), blocks=draw(st.integers(1, 2)))
+
+
+def run_residual(c) -> CaseResult:
+    """residual_split -> f -> residual_add (and residual_apply): the gradient with respect to the stream is the true derivative
+    of the function actually computed"""
+    res = CaseResult()
+    g = torch.Generator().manual_seed(c["seed"])
+    x = torch.randn(c["shape"], generator=g, dtype=torch.float64).requires_grad_()
+    h = c["shape"][-1]
+    # (the branch's own parameters are NOT checked: by design their gradients skip the forward-only tau factor applied in residual_add)
+    w = torch.randn(h, h, generator=g, dtype=torch.float64) / math.sqrt(h)
+    tau = c["tau"]
+    res.labels += [f"branch={c['branch']}", f"via={c['via']}", f"blocks={c['blocks']}"]
+
+    def f(r, w_):
+        k = c["branch"]
+        if k == "tanh":
+            return torch.tanh(r)
+        if k == "linear":
+            return r @ w_.T
+        if k == "mulc":
+            return -1.5 * r
+        if k == "pool":
+            return r.mean(-1, keepdim=True)   # broadcast against the skip
+        if k == "square":
+            return 0.5 * r * r
+        return torch.sin(r) + w_[0]
+
+    def block(t, w_):
+        if c["via"] == "apply":
+            return U.residual_apply(lambda r: f(r, w_), t, tau)
+        if c["via"] == "split-add-kw":
+            r, sk = U.residual_split(input=t, tau=tau)
+            return U.residual_add(residual=f(r, w_), skip=sk, tau=tau)
+        r, sk = U.residual_split(t, tau)
+        return U.residual_add(f(r, w_), sk, tau)
+
+    def fn(x_, w_):
+        y = x_
+        for _ in range(c["blocks"]):
+            y = block(y, w_)
+        return y
+    try:
+        ok = bool(torch.autograd.gradcheck(lambda x_: fn(x_, w), (x,), eps=1e-6, atol=1e-6, rtol=1e-4, raise_exception=False, check_undefined_grad=False,
+                                           check_batched_grad=False, check_grad_dtypes=False))
+    except Exception as e:  # noqa: BLE001
+        res.fail(exc_bucket("C05.gradcheck.raises:residual", e), f"{type(e).__name__}: {e}")
+        return res
+    if not ok:
+        res.fail(f"C05.gradcheck:residual:{c['via']}", f"gradients through residual_split / residual_add (tau={tau!r}, branch {c['branch']}, {c['blocks']} block(s), "
+                 f"shape {c['shape']}) are not the true derivative of the function computed")
+    res.nontrivial = tau != 1
+    return res
+
+
 class _Mismatch(torch.autograd.Function):
     """harness-side op whose backward is deliberately not the derivative of its forward"""
 
@@ -271,13 +335,15 @@ CHECK = Check(
     id="C05",
     parts=[Part("rules", run_rules, strategy=rule_cases, budget={"quick": 2000, "thorough": 40000}),
            Part("names", run_names, strategy=name_cases, budget={"quick": 1000, "thorough": 20000}),
-           Part("ops", run_ops, strategy=op_cases, budget={"quick": 500, "thorough": 12000})],
+           Part("ops", run_ops, strategy=op_cases, budget={"quick": 500, "thorough": 12000}),
+           Part("residual", run_residual, strategy=residual_cases, budget={"quick": 300, "thorough": 10000})],
     rule=("rules: 1-6 scales log-uniform in [1e-6,1e6] (+ end points), a permutation; means vs statistics module and Fractions; "
           "names: arbitrary text, case/whitespace variants of valid names, every non-constraint attribute of the constraints module, "
           "via apply_constraint and via ops; ops: shapes as C01 (float64) for every constrained op x every valid constraint name: "
           "fitted forward/backward scalars vs the rule applied to the scalars fitted under None, weight/bias scalars unchanged, "
-          "torch.autograd.gradcheck on constrained inputs. Non-trivial: rules with >= 2 scales differing by > 1%; names rejected with "
-          "ValueError; ops whose ideal scales differ by > 1%."),
+          "torch.autograd.gradcheck on constrained inputs; residual: residual_split -> branch -> residual_add / residual_apply (1-2 blocks, tau in [0.01,8], "
+          "six branch functions incl. a broadcasting one) under gradcheck with respect to the stream. Non-trivial: rules with >= 2 scales differing by > 1%; names rejected with "
+          "ValueError; ops whose ideal scales differ by > 1%; residual cases with tau != 1."),
     assumptions=["statistics.geometric_mean/harmonic_mean/fmean and Fractions are the reference for the mean rules",
                  "gradcheck: float64, eps 1e-6, atol 1e-6, rtol 1e-4; self-test proves it rejects a harness-side op with mismatched forward/backward scales"],
     shards={"quick": 8, "thorough": 14},
